@@ -293,6 +293,24 @@ def r3_order(ctx, cfg):
                               "%s: after a hit the search continues into slower layers (a stale lower-layer value may win)" % item, g.loc())
 
 
+def some_edge(b, nx):
+    """target of the `Some` edge of the switch following an Iterator::next call"""
+    for sb in b.succ[nx.bb]:
+        for (v, tg) in b.switch_edges(sb):
+            if v == 1:
+                return tg
+    return None
+
+
+def every_iteration(b, nx, call_bb):
+    """every path from the loop body's entry back to the loop head or to a return passes call_bb"""
+    se = some_edge(b, nx)
+    if se is None:
+        return False
+    r = b.reachable([se], avoid={call_bb})
+    return not (nx.bb in r or (r & set(b.return_blocks())))
+
+
 def r4_fanout(ctx, cfg):
     rule = "C12.R4"
     ctx.rule(rule, "remove/clear reach every layer; only error propagation leaves the loop early; tracker updated")
@@ -315,6 +333,9 @@ def r4_fanout(ctx, cfg):
         in_loop = o.bb in b.reachable(b.succ[nx.bb]) and nx.bb in b.reachable(b.succ[o.bb])
         ctx.check(in_loop and awaited(b, o) is not None, rule, [b.id, "in-loop"], "per-layer op is inside the loop and awaited",
                   "%s: the per-layer call is not (awaited) inside the loop over the layers" % item, o.loc())
+        ctx.check(every_iteration(b, nx, o.bb), rule, [b.id, "every-layer"], "per-layer op runs for every layer",
+                  "%s: some path through the loop body skips the per-layer call (e.g. a short-circuit once an earlier layer "
+                  "reported a hit): a slower layer keeps the entry and answers for the key afterwards" % item, o.loc())
         rl, rbb = result_local(b, o)
         sws = enum_switches(b, rl)
         rets = set(b.return_blocks())
@@ -360,9 +381,36 @@ def r5_no_guard_across_await(ctx, cfg, rule="C12.R5", file_pat=None):
     ctx.floor(rule, n, cfg.get("yield_floor", 20), "await points inspected")
 
 
+def r6_batch(ctx, cfg):
+    rule = "C12.R6"
+    ctx.rule(rule, "batch_put/batch_get perform the single-key operation for every item, in order")
+    for item, pat in (("batch_put", r"AsyncCache<K>>::put$|AsyncCache::put$"), ("batch_get", r"AsyncCache<K>>::get$|AsyncCache::get$|MultiLayerCacheImpl::<K>::get_with_validation$")):
+        b = ml_body(ctx, rule, cfg, item)
+        if not b:
+            continue
+        ctx.saw(b)
+        ops = b.calls_matching(pat)
+        if not ctx.anchor(rule, ops, "single-key call in %s" % item):
+            continue
+        o = ops[0]
+        # the loop that contains the call
+        nexts = [c for c in b.calls_matching(r"\bIterator>?::next$") if o.bb in b.reachable(b.succ[c.bb]) and c.bb in b.reachable(b.succ[o.bb])]
+        if not ctx.anchor(rule, nexts, "loop around the single-key call in %s" % item):
+            continue
+        nx = nexts[-1]
+        adapters = [a for a in ("Rev<", "Skip<", "Take<", "StepBy<", "Filter<", "SkipWhile<", "TakeWhile<") if a in nx.full]
+        ctx.check(not adapters, rule, [b.id, "all-items"], "iterates over all items in order",
+                  "%s iterates with %s: items are skipped or reordered" % (item, adapters), nx.loc(), sample={"iterator": nx.full})
+        ctx.check(every_iteration(b, nx, o.bb) and awaited(b, o) is not None, rule, [b.id, "every-item"],
+                  "single-key op runs (awaited) for every item",
+                  "%s: some path through the loop body skips the single-key operation for an item while the batch still reports "
+                  "success (e.g. de-duplication keeping the first value: a later value for the same key is lost)" % item, o.loc())
+
+
 def run(ctx, cfg=CFG):
     r1_reentrancy(ctx, cfg)
     r2_validated(ctx, cfg)
     r3_order(ctx, cfg)
     r4_fanout(ctx, cfg)
     r5_no_guard_across_await(ctx, cfg)
+    r6_batch(ctx, cfg)
